@@ -226,8 +226,9 @@ def selection(ctx: Ctx):
         any(a.op == "kw" and a.args[0] == "dim" and vg.is_const(a.args[1], -1) for a in ret.args[2:])
     ctx.ob("C10.c", "greedy=argmax(logprobs, dim=-1)", ok, fi.loc, f"returns {vg.show(ret, 3)}", construct="DecodingStrategy.greedy:argmax")
     guards = [e for e in it.events if e.kind == "assert" and "mask" in vg.params_of(e.data) and any(n is ret for n in vg.walk(e.data))]
-    ctx.ob("C10.c", "greedy:infeasibility-guard", bool(guards) and all(len(e.conds) == 1 for e in guards), fi.loc,
-           "asserts that the selected action is not masked (when a mask is given)", construct="DecodingStrategy.greedy:guard")
+    pol = set().union(*[nf.bool_signs(e.data, "mask") for e in guards]) if guards else set()
+    ctx.ob("C10.c", "greedy:infeasibility-guard", bool(guards) and all(len(e.conds) == 1 for e in guards) and pol == {+1}, fi.loc,
+           f"asserts that the selected action is not masked (when a mask is given); the assertion is monotone in the mask with sign {sorted(pol)} (needs +1: feasible selections pass)", construct="DecodingStrategy.greedy:guard")
     # sampling
     fi = cls.methods["sampling"]
     ctx.fn(fi)
@@ -242,7 +243,11 @@ def selection(ctx: Ctx):
     ctx.ob("C10.c", "sampling=multinomial(exp(logprobs))", okm, fi.loc, f"{len(mult)} multinomial draw(s), all from logprobs.exp()", construct="DecodingStrategy.sampling:multinomial")
     has_loop = any(isinstance(n, ast.While) for n in ast.walk(fi.node))
     guards = [e for e in it.events if e.kind == "assert" and "mask" in vg.params_of(e.data)]
-    ctx.ob("C10.c", "sampling:infeasibility-guard", has_loop and bool(guards), fi.loc, f"resampling loop: {has_loop}; final assert: {bool(guards)}", construct="DecodingStrategy.sampling:guard")
+    pol = set().union(*[nf.bool_signs(e.data, "mask") for e in guards]) if guards else set()
+    loops = [e for e in it.events if e.kind == "while" and "mask" in vg.params_of(e.data)]
+    lpol = set().union(*[nf.bool_signs(e.data, "mask") for e in loops]) if loops else set()
+    ctx.ob("C10.c", "sampling:infeasibility-guard", has_loop and bool(guards) and pol == {+1} and lpol == {-1}, fi.loc,
+           f"resampling loop: {has_loop} (continues while an infeasible action is selected: sign {sorted(lpol)}, needs -1); final assert: {bool(guards)} (sign {sorted(pol)}, needs +1)", construct="DecodingStrategy.sampling:guard")
     # subclasses return the log-probs they were given and use the shared selectors
     for cn, sel in (("Greedy", "greedy"), ("Sampling", "sampling"), ("Evaluate", None)):
         c = ctx.repo.get_class(DEC, cn)
